@@ -816,16 +816,23 @@ class TLSConnection(TLSRecordLayer):
             extensions.append(ext)
 
         groups = []
+        # in TLS 1.3 every handshake uses the groups, whatever the TLS 1.2
+        # key exchanges enabled (key_share requires supported_groups)
+        tls13_offered = shares is not None
         # Send the ECC extensions only if we advertise ECC ciphers
-        if next((cipher for cipher in cipherSuites \
-                if cipher in CipherSuite.ecdhAllSuites), None) is not None:
+        ecc_offered = next((cipher for cipher in cipherSuites
+                            if cipher in CipherSuite.ecdhAllSuites),
+                           None) is not None
+        if ecc_offered or tls13_offered:
             groups.extend(self._curveNamesToList(settings))
+        if ecc_offered:
             if settings.ec_point_formats:
                 extensions.append(ECPointFormatsExtension().\
                                 create(settings.ec_point_formats))
         # Advertise FFDHE groups if we have DHE ciphers
         if next((cipher for cipher in cipherSuites
-                 if cipher in CipherSuite.dhAllSuites), None) is not None:
+                 if cipher in CipherSuite.dhAllSuites), None) is not None \
+                or tls13_offered:
             groups.extend(self._groupNamesToList(settings))
         # Send the extension only if it will be non empty
         if groups:
